@@ -9,6 +9,7 @@ import (
 	"math/rand"
 	"strings"
 	"time"
+	"verifharness/svc"
 
 	"github.com/bartossh/Computantis/src/accountant"
 	"github.com/bartossh/Computantis/src/gossip"
@@ -499,7 +500,112 @@ func fieldOnly(s string) string {
 	return s
 }
 
+// c19Lists: transactions that leave a node in a list answer (notary Waiting: from the awaiting cache, msgpack ->
+// protobuf; TransactionsInDAG: from the ledger -> protobuf), sent over the wire and converted back by the client side
+// converter, are the transactions that were handed in: every signed field identical, issuer (and receiver) signature
+// still verifying. Lists of 1..6 entries.
+func c19Lists(w *core.WorkerCtx) {
+	r := w.R
+	rng := core.Rand(w.Seed, "C19lists", w.Batch)
+	ctx := context.Background()
+	for _, n := range []int{1, 2, 3, 6} {
+		rig, err := svc.New(3, 60, 4096)
+		if err != nil {
+			r.Inconc("cannot build the node: " + err.Error())
+			return
+		}
+		I, R := rig.Users[0], rig.Users[1]
+		orig := map[string]transaction.Transaction{}
+		for i := 0; i < n; i++ {
+			data := c19Bytes(rng, []int{1, 31, 32, 33, 255, 256, 1000}[rng.Intn(7)], 1+rng.Intn(3))
+			subj := fmt.Sprintf("list %d/%d %s", i, n, strings.Repeat("s", []int{0, 1, 31, 32, 33, 200}[rng.Intn(6)]))
+			t := ledger.ForgeTrx(I, R.Addr, subj, data, spice.Melange{Currency: uint64(i), SupplementaryCurrency: uint64(rng.Intn(1000))}, time.Now().Add(-time.Minute).Add(time.Duration(i)*time.Millisecond))
+			p, err := transformers.TrxToProtoTrx(t)
+			if err != nil {
+				continue
+			}
+			if _, err := rig.Notary.Propose(ctx, p); err != nil {
+				r.Note("c19 lists: proposal refused: " + err.Error())
+				continue
+			}
+			orig[subj] = t
+		}
+		compare := func(path string, arr []*protobufcompiled.Transaction, countersigned bool) {
+			// over the wire and back through the client side converter
+			b, err := proto.Marshal(&protobufcompiled.Transactions{Array: arr, Len: uint64(len(arr))})
+			if err != nil {
+				r.Count("c19_rejected_by_converter", 1)
+				return
+			}
+			var back protobufcompiled.Transactions
+			if err := proto.Unmarshal(b, &back); err != nil {
+				r.Violate("C19", "list-answer-does-not-decode/"+path, err.Error(), nil)
+				return
+			}
+			seen := 0
+			for _, pt := range back.Array {
+				r.Eval(1)
+				if pt.Spice == nil {
+					pt.Spice = &protobufcompiled.Spice{}
+				}
+				got, err := transformers.ProtoTrxToTrx(pt)
+				if err != nil {
+					r.Violate("C19", "list-entry-does-not-convert/"+path, fmt.Sprintf("an entry of a %d element answer does not convert back: %v", len(back.Array), err), nil)
+					continue
+				}
+				o, ok := orig[got.Subject]
+				if !ok {
+					continue // history that is not part of this comparison (funding)
+				}
+				seen++
+				want := o
+				if countersigned {
+					ledger.CounterSign(&want, R)
+				}
+				if d := trxDiff(&want, &got); len(d) > 0 {
+					r.Violate("C19", "silently-changed/"+path+"/"+fieldOnly(d[0]), fmt.Sprintf("%s: entry [%s] of an answer with %d transactions differs from the transaction handed in: %v", path, headN(got.Subject, 12), len(back.Array), d), nil)
+				} else if ok, why := ledger.TrxAuthentic(&got); !ok {
+					r.Violate("C19", "verify-outcome-changed/"+path, fmt.Sprintf("%s: entry of an answer with %d transactions no longer verifies: %s", path, len(back.Array), why), nil)
+				}
+				r.Nontriv(fmt.Sprintf("%s/len%d", path, len(back.Array)))
+			}
+			if seen != len(orig) {
+				r.Violate("C19", "list-answer-incomplete/"+path, fmt.Sprintf("%s returned %d of the %d transactions handed in", path, seen, len(orig)), nil)
+			}
+			r.Count("c19_list_answers", 1)
+		}
+		rig.Flash.RemoveAddress(R.Addr)
+		if blob, err := rig.Notary.Data(ctx, &protobufcompiled.Address{Public: R.Addr}); err == nil {
+			if res, err := rig.Notary.Waiting(ctx, svc.Sign(R, blob.Blob)); err == nil {
+				compare("notary.Waiting", res.Array, false)
+			} else {
+				r.Note("c19 lists: Waiting refused: " + err.Error())
+			}
+		}
+		// the receiver confirms everything; the sealed transactions come back from the ledger
+		for _, t := range orig {
+			c := t
+			ledger.CounterSign(&c, R)
+			if p, err := transformers.TrxToProtoTrx(c); err == nil {
+				rig.Notary.Confirm(ctx, p)
+			}
+		}
+		rig.Flash.RemoveAddress(R.Addr)
+		if blob, err := rig.Notary.Data(ctx, &protobufcompiled.Address{Public: R.Addr}); err == nil {
+			if res, err := rig.Notary.TransactionsInDAG(ctx, svc.Sign(R, blob.Blob)); err == nil {
+				compare("notary.TransactionsInDAG", res.Array, true)
+			} else {
+				r.Note("c19 lists: TransactionsInDAG refused: " + err.Error())
+			}
+		}
+		rig.Close()
+	}
+}
+
 func c19Worker(w *core.WorkerCtx) {
+	if w.Batch == 1 {
+		c19Lists(w)
+	}
 	rng := core.Rand(w.Seed, "C19", w.Batch)
 	e := &c19Env{w: w, issuer: ledger.NewActor("I"), recv: ledger.NewActor("R"), sealer: ledger.NewActor("S"), ver: wallet.NewVerifier()}
 	r := w.R
